@@ -94,7 +94,9 @@ Let Hwt : wf_total D := wf_desc_total D Hwf.
 (* local to a root: distinct property names, importable formats *)
 Definition props_wf (ps : list prop) : Prop :=
   (json_ok D -> NoDup (map p_json ps)) /\ forallb (fun p => field_importable (p_schema p)) ps = true.
-Definition root_wf (r : root) : Prop := props_wf (root_props r).
+(* a linked root: the names are distinct whatever the descriptors say (the reader checks them, fix 07ed85e) *)
+Definition root_wf (r : root) : Prop :=
+  NoDup (map p_json (root_props r)) /\ forallb (fun p => field_importable (p_schema p)) (root_props r) = true.
 Definition refs_keyed (st : sset) (rs : list ref) : Prop := forall k, In k rs -> has_key st k = true.
 
 Definition InvS (st : sset) : Prop :=
@@ -138,7 +140,7 @@ Lemma InvS_cons_enum st e r :
 Proof.
   intros (H1 & H2 & H3) Hl (a & b & c & d & f & ->). split; [apply Inv_cons_enum; eauto 10|]. split.
   - intros k' r Hlk. rewrite lookup_cons in Hlk. destruct (ref_eqb (enum_key e) k') eqn:E.
-    + inversion Hlk; subst r. split; [split; [intros _; constructor|reflexivity]|intros k2 []].
+    + inversion Hlk; subst r. split; [split; [constructor|reflexivity]|intros k2 []].
     + destruct (H2 k' r Hlk) as [Hw Hr]. split; [exact Hw|]. eapply refs_keyed_ext; [apply ext_cons|exact Hr].
   - cbn [map fst]. constructor; [apply lookup_None_notin; exact Hl|exact H3].
 Qed.
@@ -363,7 +365,7 @@ Hypothesis Hwf : wf_keys D.
 Let Hwt : wf_total D := wf_desc_total D Hwf.
 Variable n : nat.
 Variable rec : sset -> msgd -> outcome (sset * root).
-Hypothesis Hrec : forall st m, In m (d_msgs D) -> InvS D st -> unvisited D st < n -> Ps D fst (Qr D) st (rec st m).
+Hypothesis Hrec : forall st m, In m (d_msgs D) -> InvS D st -> unvisited D st < n -> Ps D fst Qr st (rec st m).
 
 Definition props_refs (ps : list prop) : list ref := flat_map (fun p => field_refs (p_schema p)) ps.
 Definition props_importable (ps : list prop) : bool := forallb (fun p => field_importable (p_schema p)) ps.
@@ -583,7 +585,7 @@ Proof.
     assert (HI1 : InvS D st1).
     { apply InvS_cons; [exact HI|exact El| |].
       - intros e He. eapply (oneof_key_apart D Hwt); eauto. apply Hsub. left. reflexivity.
-      - split; [split; [intros _; constructor|reflexivity]|intros k2 []]. }
+      - split; [split; [constructor|reflexivity]|intros k2 []]. }
     pose proof (IH (N.succ idx) st1 Hr HI1) as H.
     destruct (register_oneofs m st1 (N.succ idx) r) as [[st2 exs]|]; cbn [rbind]; [|exact I].
     destruct H as (H1 & H2 & H3 & H4 & H5 & H6).
@@ -598,7 +600,7 @@ Proof.
 Qed.
 
 Lemma finish_oneofs_ps m : In m (d_msgs D) -> forall exs st,
-  exs_named m exs -> Forall (ex_wf st) exs -> Forall (fun e => json_ok D -> NoDup (map p_json (ex_props e))) exs ->
+  exs_named m exs -> Forall (ex_wf st) exs -> Forall (fun e => NoDup (map p_json (ex_props e))) exs ->
   InvS D st -> InvS D (finish_oneofs st exs) /\ ext st (finish_oneofs st exs) /\ noplace st (finish_oneofs st exs).
 Proof.
   intros Hm. unfold finish_oneofs. induction exs as [|e r IH]; intros st Hnm Hex Hnd HI; cbn [fold_left].
@@ -622,7 +624,7 @@ Qed.
 Section Level3.
 Variable n : nat.
 Variable rec : sset -> msgd -> outcome (sset * root).
-Hypothesis Hrec : forall st m, In m (d_msgs D) -> InvS D st -> unvisited D st < n -> Ps D fst (Qr D) st (rec st m).
+Hypothesis Hrec : forall st m, In m (d_msgs D) -> InvS D st -> unvisited D st < n -> Ps D fst Qr st (rec st m).
 
 Definition Qm (x : sset * list prop) : Prop := props_wf D (snd x) /\ refs_keyed (fst x) (props_refs (snd x)).
 
@@ -641,7 +643,7 @@ Proof.
   pose proof (fields_loop_ps D Hwf n rec Hrec m (m_fields m) st1 exs HI1 HU1 Hex) as Hf.
   destruct (fields_loop D rec m st1 exs (m_fields m)) as [[[st2 exs2] ps]| | |] eqn:Ef; cbn [obind]; try exact Hf.
   unfold Ps, Ql, pr3 in Hf. cbn [fst snd] in Hf. destruct Hf as (HI2 & He2 & Hn2 & Hpi & Hpr & Hex2).
-  destruct (existsb ex_pending exs2) eqn:Epend; [exact I|].
+  destruct (existsb ex_pending exs2) eqn:Epend; [exact I|]. destruct (exs_names_ok exs2) eqn:Enames; cbn [negb]; [|exact I].
   assert (Hnamed2 : exs_named m exs2) by (eapply fields_loop_named; eauto).
   (* names, when the JSON names of the message are distinct *)
   assert (Hnames : json_ok D -> NoDup (map p_json ps) /\ Forall (fun e => NoDup (map p_json (ex_props e))) exs2).
@@ -656,8 +658,10 @@ Proof.
       clear -Epend. induction exs2 as [|e r IH]; [reflexivity|]. cbn [existsb filter] in *.
       apply orb_false_iff in Epend as [E1 E2]. rewrite E1. apply IH. exact E2. }
     rewrite Hpn2, app_nil_r in N1. split; [exact N1|exact N3]. }
-  assert (N3 : Forall (fun e => json_ok D -> NoDup (map p_json (ex_props e))) exs2).
-  { apply Forall_forall. intros e He Hj. destruct (Hnames Hj) as [_ F]. exact (proj1 (Forall_forall _ _) F e He). }
+  (* the members of every exposed oneof: distinct because messageProperties checks them *)
+  assert (N3 : Forall (fun e => NoDup (map p_json (ex_props e))) exs2).
+  { apply Forall_forall. intros e He. apply nodup_str_NoDup.
+    unfold exs_names_ok in Enames. exact (proj1 (forallb_forall _ _) Enames e He). }
   destruct (finish_oneofs_ps m Hm exs2 st2 Hnamed2 Hex2 N3 HI2) as (F1 & F2 & F3).
   unfold Ps, Qm. cbn [fst snd].
   split; [exact F1|]. split; [eapply ext_trans; [exact He1|]; eapply ext_trans; [exact He2|exact F2]|].
@@ -666,29 +670,32 @@ Proof.
 Qed.
 
 Lemma build_root_ps st m :
-  In m (d_msgs D) -> InvS D st -> unvisited D st <= n -> Ps D fst (Qr D) st (build_root D rec st m).
+  In m (d_msgs D) -> InvS D st -> unvisited D st <= n -> Ps D fst Qr st (build_root D rec st m).
 Proof.
   intros Hm HI HU. unfold build_root.
   eapply Ps_bind; [apply message_properties_ps; assumption|].
   intros [st1 ps] HI1 He1 Hn1 [Hw Hr]. cbn [fst snd] in *.
-  assert (Hfin : forall r, root_props r = ps ->
+  assert (Hfin : forall r, root_props r = ps -> NoDup (map p_json ps) ->
              match Ok (st1, r) : outcome (sset * root) with
-             | Ok y => InvS D (fst y) /\ ext st1 (fst y) /\ noplace st1 (fst y) /\ Qr D y
+             | Ok y => InvS D (fst y) /\ ext st1 (fst y) /\ noplace st1 (fst y) /\ Qr y
              | Err _ => True
              | _ => False
              end).
-  { intros r Hp. cbn [fst]. split; [exact HI1|]. split; [apply ext_refl|]. split; [apply noplace_refl|].
-    unfold Qr, root_wf, root_refs. cbn [fst snd]. rewrite Hp. split; [exact Hw|exact Hr]. }
-  destruct (negb (props_valid ps)); [exact I|].
-  destruct (is_oneof_wrapper m); [apply Hfin; reflexivity|].
+  { intros r Hp Hnd. cbn [fst]. split; [exact HI1|]. split; [apply ext_refl|]. split; [apply noplace_refl|].
+    unfold Qr, root_wf, root_refs. cbn [fst snd]. rewrite Hp. split; [split; [exact Hnd|exact (proj2 Hw)]|exact Hr]. }
+  destruct (props_valid ps) eqn:Ev; cbn [negb]; [|exact I].
+  (* the names of the message's own properties: distinct because the reader checks them *)
+  assert (Hnd : NoDup (map p_json ps)).
+  { unfold props_valid in Ev. apply andb_true_iff in Ev as [_ Ev]. apply nodup_str_NoDup. exact Ev. }
+  destruct (is_oneof_wrapper m); [apply Hfin; [reflexivity|exact Hnd]|].
   pose proof (flatten_cycle_fuel st1 (msg_key m) ps) as Hfc.
   destruct (flatten_cycle st1 (msg_key m) ps) as [[|]|]; [exact I| |contradiction].
-  destruct (find_psm D m) as [ent|cls]; cbn [lift obind]; [apply Hfin; reflexivity|exact I].
+  destruct (find_psm D m) as [ent|cls]; cbn [lift obind]; [apply Hfin; [reflexivity|exact Hnd]|exact I].
 Qed.
 End Level3.
 
 Lemma build_msg_ps : forall fuel st m,
-  In m (d_msgs D) -> InvS D st -> unvisited D st < fuel -> Ps D fst (Qr D) st (build_msg D fuel st m).
+  In m (d_msgs D) -> InvS D st -> unvisited D st < fuel -> Ps D fst Qr st (build_msg D fuel st m).
 Proof.
   induction fuel as [|fuel IH]; intros st m Hm HI HU; [lia|].
   cbn [build_msg]. apply build_root_ps with (n := fuel); [exact IH|assumption|assumption|lia].
@@ -769,11 +776,11 @@ Qed.
 Theorem reflect_ok_guarantees fs S :
   reflect D fs = Ok S ->
   keys_distinct S = true /\ set_importable S = true /\ set_closed S = true /\
-  (json_ok D -> forall k r, lookup S k = Some (Linked r) -> names_unique_b (root_props r) = true) /\
+  (forall k r, lookup S k = Some (Linked r) -> names_unique_b (root_props r) = true) /\
   (forall k, lookup S k <> Some Placeholder).
 Proof.
   intros HS. pose proof (reflect_final fs) as H. rewrite HS in H. destruct H as [(H1 & H2 & H3) Hnp].
-  assert (Hlinked : forall k e, In (k, e) S -> exists r, e = Linked r /\ root_wf D r /\ refs_keyed S (root_refs r)).
+  assert (Hlinked : forall k e, In (k, e) S -> exists r, e = Linked r /\ root_wf r /\ refs_keyed S (root_refs r)).
   { intros k e Hin. pose proof (lookup_In S H3 k e Hin) as Hl. destruct e as [|r]; [exfalso; apply (Hnp k Hl)|].
     exists r. split; [reflexivity|]. apply (H2 k r Hl). }
   split; [apply keys_distinct_NoDup; exact H3|]. split; [|split; [|split; [|exact Hnp]]].
@@ -782,7 +789,7 @@ Proof.
     destruct (Hlinked k e Hin) as (r & -> & _ & Hr). cbn [snd]. apply forallb_forall. intros k2 Hk2.
     specialize (Hr k2 Hk2). unfold has_key in Hr. destruct (lookup S k2) as [[|r2]|] eqn:E; try discriminate; [|reflexivity].
     exfalso. apply (Hnp k2 E).
-  - intros Hj k r Hl. destruct (H2 k r Hl) as [[Hn _] _]. apply nodup_str_NoDup. exact (Hn Hj).
+  - intros k r Hl. destruct (H2 k r Hl) as [[Hn _] _]. apply nodup_str_NoDup. exact Hn.
 Qed.
 End Build.
 
